@@ -3,7 +3,8 @@
 From Coq Require Import ZArith List Bool Permutation Sorting.Sorted.
 From VV Require Import gen.GenNumeric model.Alloc proofs.AllocProofs proofs.AllocGreedyProofs proofs.AllocLinearProofs
   proofs.AllocHillProofs proofs.AllocHillNbrProofs proofs.AllocHillSearchProofs proofs.AllocHillPeakProofs
-  proofs.AllocHillTermProofs proofs.AllocHillOutcomeProofs proofs.AllocExamples.
+  proofs.AllocHillTermProofs proofs.AllocHillOutcomeProofs proofs.AllocHillIndexProofs proofs.AllocHillWalkProofs
+  proofs.AllocExamples.
 Import ListNotations.
 Open Scope Z_scope.
 
@@ -181,17 +182,22 @@ Theorem hillclimb_search_iterations_bound : forall (S : Type) (next : S -> Z * S
            (search S next lrs nbrs minreq maxit limit x).
 Proof. exact search_iterations_bound_lemma. Qed.
 
-(* the whole run, for every stream: it ends with addresses after at most hc_iteration_bound iterations
-   of the search loop, or with one of the modelled exceptions 1 (ValueError of random.randint, see
-   hillclimb_randint_refuted), 2 (IndexError), 3 (endless predecessor walk); never by running out of the
-   fuel of allocate_lr (4) or of search (5).  _partial: 2 and 3 are not proved unreachable. *)
-Theorem hillclimb_terminates_partial : forall (S : Type) (next : S -> Z * S) lrs mi limit s,
+(* the whole run, for every stream: it ends with addresses after at most hc_iteration_bound iterations of
+   the search loop, or with the ValueError of random.randint (code 1, reachable: hillclimb_randint_refuted).
+   No list access leaves its list (2), the predecessor walk always ends although aborted passes leave stale
+   predecessor/turn fields (3), allocate_lr and search end within their bounds (4, 5). *)
+Theorem hillclimb_terminates : forall (S : Type) (next : S -> Z * S) lrs mi limit s,
   Forall hc_wf lrs -> footprint_bound lrs <= 2 ^ 63 ->
   match hillclimb S next lrs mi limit s with
   | Ok (_, _, iters, _) => 0 <= iters <= hc_iteration_bound lrs mi
-  | Err c => c = 1 \/ c = 2 \/ c = 3
+  | Err c => c = 1
   end.
-Proof. exact hillclimb_terminates_lemma. Qed.
+Proof.
+  intros S next lrs mi limit s Hwf Hfb.
+  pose proof (hillclimb_terminates_lemma S next lrs mi limit s Hwf Hfb) as A.
+  pose proof (hillclimb_only_valueerror_lemma S next lrs mi limit s Hwf Hfb) as B.
+  destruct (hillclimb S next lrs mi limit s) as [[[[ad bs] it] dr]|c]; [exact A | exact B].
+Qed.
 
 (* the unguarded random.randint(0, len(turn_list) - 2): ValueError on a five-range input *)
 Theorem hillclimb_randint_refuted :
@@ -217,6 +223,6 @@ Print Assumptions hillclimb_ge_peak.
 Print Assumptions hillclimb_allocate_lr_terminates.
 Print Assumptions hillclimb_search_terminates.
 Print Assumptions hillclimb_search_iterations_bound.
-Print Assumptions hillclimb_terminates_partial.
+Print Assumptions hillclimb_terminates.
 Print Assumptions hillclimb_randint_refuted.
 Print Assumptions gen_round_up_is_model.
